@@ -16,7 +16,35 @@ def fields (s : String) : List (String × String) :=
     | [k] => if k.isEmpty then none else some (k, "")
     | k :: rest => some (k, ":".intercalate rest)
 
+/-- `pw pk kbd [gss]` bits -/
 def parseCbs (s : String) : Option Cbs :=
+  match s.toList with
+  | [a, b, c] => do
+    let a ← bit? (String.singleton a)
+    let b ← bit? (String.singleton b)
+    let c ← bit? (String.singleton c)
+    pure ⟨a, b, c, false⟩
+  | [a, b, c, d] => do
+    let a ← bit? (String.singleton a)
+    let b ← bit? (String.singleton b)
+    let c ← bit? (String.singleton c)
+    let d ← bit? (String.singleton d)
+    pure ⟨a, b, c, d⟩
+  | _ => none
+
+/-- `.`-separated list; `-` or absent = empty -/
+def dotList (s : String) : List String := if s == "-" || s.isEmpty then [] else s.splitOn "."
+
+def parseFollow (s : String) : Option Follow :=
+  match s.toList with
+  | ['i', 'b'] => some .infoRespBad
+  | 'i' :: n => (String.ofList n).toNat?.map Follow.infoResp
+  | ['g', 't'] => some .gssToken
+  | ['g', 'm'] => some .gssMic
+  | ['o'] => some .other
+  | _ => none
+
+def parseGssStep (s : String) : Option GssStep :=
   match s.toList with
   | [a, b, c] => do
     let a ← bit? (String.singleton a)
@@ -95,12 +123,24 @@ def parseReq (s : String) : Option Read :=
     let key ← match f.lookup "k" with
       | none => some 0
       | some v => v.toNat?
+    let kr ← (dotList (get "kr")).mapM String.toNat?
+    let fl ← (dotList (get "fl")).mapM parseFollow
+    let gsteps ← (dotList (get "gs")).mapM parseGssStep
+    let gmo ← getB "gmo" false
+    let gp ← match f.lookup "gp" with
+      | none => some GssPayload.krb
+      | some "k" => some GssPayload.krb
+      | some "m" => some GssPayload.malformed
+      | some "n0" => some GssPayload.n0
+      | some "nk" => some GssPayload.noKrb
+      | _ => none
     let pk : PkReq := {
       payloadEmpty := pks == "empty", isQuery := q, algoOk := pks != "noalgo", algo := get "a",
       keyOk := pks != "nokey", key := key, keyParses := kp, keyType := get "kt", certNoTouch := cnt,
       trailing := pks == "qtrail", sigParses := sg == "ok", sigFormat := get "sf",
       sigValid := sv, sigValidNT := svn }
-    pure (.req { user, service, method, pwShape := pws, password := get "pw", pk, cb, vcb })
+    pure (.req { user, service, method, pwShape := pws, password := get "pw", pk, cb, vcb,
+                 kbdRounds := kr, follow := fl, gss := ⟨gp, gsteps, gmo⟩ })
   | _ => none
 
 def showLog : LogRes → String
@@ -118,6 +158,13 @@ def showEv : Ev → String
   | .cbKbd g u _ => s!"cb.kbd({g},{u})"
   | .cbPk g u k _ => s!"cb.pk({g},{u},{k})"
   | .cbVpk u k p sf _ => s!"cb.vpk({u},{k},{p},{sf})"
+  | .sendInfoReq q => s!"IQ:{q}"
+  | .sendGssResponse => "GR"
+  | .sendGssToken => "GT"
+  | .gssAccept => "gss.accept"
+  | .gssVerifyMic => "gss.mic"
+  | .gssDelete => "gss.del"
+  | .cbGssAllow g u _ => s!"cb.gss({g},{u})"
   | .log m r => s!"log({m},{showLog r})"
 
 def showFinal : Final → String
